@@ -148,6 +148,12 @@ func (c *cluster) divergence() []string {
 	return out
 }
 
+// Note on joiners in F1: nodes 4 and 5 start with empty storage and replay the log from index 1;
+// the initial configuration lives in the index-0 ConfState, so their own view of the
+// configuration is incomplete. They only ever act as followers here (acknowledging appends does
+// not depend on the local configuration), so the outcome does not depend on it. The harness
+// starts initial members from a snapshot at index > 0 and snapshots after membership changes.
+//
 // F1: commit index lost in a crash between Entries and HardState + two membership changes
 // => a node wins an election with a two-steps-stale configuration; state machines diverge.
 func TestF1_StaleConfigElectionAfterCommitLoss(t *testing.T) {
